@@ -127,6 +127,8 @@ fn build(ch: &mut Chooser, family: &str) -> (&'static str, Vec<u8>, String, bool
                 "xls" => {
                     let mut book = biff8::BBook { sheets: vec![biff8::BSheet::new("S", vec![biff8::BCell::Number { r: 0, c: 0, xf: 0, v: 47.0 }, biff8::BCell::Label { r: 1, c: 0, xf: 0, text: "EncryptedPackage".into(), wide: false }])], ..Default::default() };
                     if ch.flag("writeprotect-record") { book.extra_globals = vec![(0x0086, vec![])]; }
+                    // workbook-structure protection (PROTECT + PASSWORD verifier) is not encryption: there is no FILEPASS
+                    if ch.flag("structure-protection-with-password-verifier") { book.extra_globals.push((0x0012, vec![1, 0])); book.extra_globals.push((0x0013, vec![0xCE, 0x4B])); }
                     let mut stream = biff8::workbook_stream(&book);
                     if ch.flag("workbook-in-regular-sectors") && stream.len() < 4096 { stream.resize(4096, 0); }
                     let mut e = vec![cfb::Entry::stream("Workbook", stream, None)];
